@@ -16,7 +16,7 @@ pub static DEF: PropertyDef = PropertyDef {
            recorded delivery history: no message is delivered twice between resets; a message is delivered with the type its text states; the handler deliveries of a continue \
            equal the messages the no-handler twin newly exposes in that continue; without a handler a continue returns Err exactly when it raised an error and never for a \
            warning, errors stay readable until reset, warnings are readable after the continue that raised them; a delivered line that carries a warning site comes with its \
-           warning; after an error the story cannot continue until reset; after reset no message is left. \
+           warning; the warning of a statement without text is delivered by the time the story has passed it; after an error the story cannot continue until reset; after reset no message is left. \
            Non-trivial = at least one warning or error was delivered; distinct = hash of program+history.",
     assumptions: &["sites are placed only in code that runs at most once between resets (knots reached by forward diverts), so a repeated message is a repeated delivery"],
     runs_quick: 10000,
@@ -24,7 +24,7 @@ pub static DEF: PropertyDef = PropertyDef {
     exhaustive_note: "none (sampled programs and histories)",
     generate,
     execute,
-    must_hit: &["fault.message.warning_delivered", "fault.message.error_delivered", "fault.message.version_warning", "fault.message.continue_after_warning", "fault.message.reset_after_error", "fault.slice.message_in_sliced_continue"],
+    must_hit: &["fault.message.warning_delivered", "fault.message.error_delivered", "fault.message.version_warning", "fault.message.continue_after_warning", "fault.message.reset_after_error", "fault.slice.message_in_sliced_continue", "fault.message.silent_site_passed"],
     timeout_s: 30,
     hang_class: None,
     sub_builds: &[],
@@ -128,6 +128,7 @@ fn execute(case: &Case) -> CaseResult {
         }
     }
     let mut delivered_in_epoch: Vec<String> = Vec::new();
+    let mut silent_pending: Vec<String> = Vec::new();
     let mut in_sync = true;
     let mut h_errored = false;
     let mut version_deliveries = 0u32;
@@ -162,6 +163,7 @@ fn execute(case: &Case) -> CaseResult {
                 fail!("message:outlives-reset", "reset_state", "warning still readable after reset", at.clone(), "[]".to_string(), format!("{:?}", stale));
             }
             delivered_in_epoch.clear();
+            silent_pending.clear();
             in_sync = true;
             h_errored = false;
             continues_in_epoch = 0;
@@ -246,6 +248,33 @@ fn execute(case: &Case) -> CaseResult {
             if !h_msgs.iter().any(|(w, m)| *w && m.contains(&needle)) {
                 fail!("message:lost", "warning", "line with a warning site delivered without its warning", at.clone(), format!("a warning naming {needle}"), format!("{:?}", h_msgs.iter().map(|x| short(&x.1)).collect::<Vec<_>>()));
             }
+        }
+
+        // a silent warning site (a statement without text after the line `pre-silent wsN`) has run once its
+        // `post-silent wsN` line is delivered or the story has stopped at choices or its end: by then its
+        // warning must have been delivered
+        if let Some(pos) = line_text.find("pre-silent ws") {
+            let id: String = line_text[pos + 13..].chars().take_while(|c| c.is_ascii_digit()).collect();
+            if !id.is_empty() && !silent_pending.contains(&id) {
+                silent_pending.push(id);
+            }
+        }
+        if !h_errored && !silent_pending.is_empty() {
+            let stopped = !h.can_continue();
+            let mut still = Vec::new();
+            for id in silent_pending.drain(..) {
+                let passed = stopped || line_text.contains(&format!("post-silent ws{id}"));
+                if !passed {
+                    still.push(id);
+                    continue;
+                }
+                res.stats.inc("fault.message.silent_site_passed");
+                let needle = format!("'us_{id}'");
+                if !delivered_in_epoch.iter().any(|m| m.contains(&needle)) {
+                    fail!("message:lost", "warning", "a statement without text raised a warning after a line end; it was never delivered", at.clone(), format!("a warning naming {needle}"), format!("{:?}", delivered_in_epoch.iter().map(|x| short(x)).collect::<Vec<_>>()));
+                }
+            }
+            silent_pending = still;
         }
 
         // --- no-handler twin
